@@ -4,7 +4,15 @@ from checks import _world_a as wa
 
 PROP = "C04"
 LEVEL = "exploration"
-RULE = "tbd"
+RULE = ("two-stage runs: stage 1 builds the generated system fault-free, stage 2 re-runs it with (a) the full structure, "
+        "(b) a prefix cut at a residue boundary (whole molecules and partial chains), (c) residue centres only (-mc, full or "
+        "prefix), (d) -res naming 1-2 residue types whose atoms are absent from the input, (e) -ign naming 1-2 molecule types "
+        "placed first / in the middle / last, under decision tapes with forced step failures, rejected starts and candidates "
+        "(first attempts of partially supplied molecules fail in most faulted runs); -box/-dens kept, dropped or contradicting "
+        "the input box; oracle: supplied atoms keep exactly their numbers in file and memory, centres kept and atoms centred on "
+        "them, the set of residues that ever received a generated position == named for rebuilding + missing (non-ignored), "
+        "no event names an ignored molecule, nothing supplied is ever removed; non-trivial = supplied and generated residues "
+        "both present; distinct = distinct event-log digests")
 ASSUMPTIONS = wa.ASSUMPTIONS
 REAL_VS_STUB = wa.REAL_VS_STUB
 PROBES = wa.PROBES + ["atoms_supplied", "centres_supplied", "supplied_and_generated_in_one_system",
